@@ -5,10 +5,11 @@ CONSTANTS
   PerRound = 2
   Ahead = 5
   Confirm = 3
+  FetchOK = FALSE
   MaxUnnotarized = 1
   Block <- MCBlock
   RoundOf <- MCRoundOf
   Idx <- MCIdx
-INVARIANTS TypeOK C36_WalkIsCommonAncestor C36_EarlierRound FinalizedRoundsAgree
+INVARIANTS TypeOK C36_WalkIsCommonAncestor FinalizedRoundsAgree
 PROPERTIES C36_SingleChain C36_UpToChosen RollbackOnlyOnDeepFork
 CHECK_DEADLOCK FALSE
